@@ -617,4 +617,106 @@ theorem ghostStep_log_mono {j pos : Nat} {w w' : World} {op : Op} {g : Ghost} {e
     · split <;> simp [h]
   · exact h
 
+/-! ### histories -/
+
+theorem snoc_induction {α : Type} {P : List α → Prop} (h0 : P []) (hs : ∀ l a, P l → P (l ++ [a])) :
+    ∀ l, P l := by
+  intro l
+  have : ∀ r : List α, P r.reverse := by
+    intro r
+    induction r with
+    | nil => exact h0
+    | cons a r ih => rw [List.reverse_cons]; exact hs _ _ ih
+  simpa using this l.reverse
+
+theorem zip_fst_inj {α β : Type} : ∀ (l1 : List α) (l2 : List β), l1.Nodup →
+    ∀ p ∈ l1.zip l2, ∀ p' ∈ l1.zip l2, p.1 = p'.1 → p = p' := by
+  intro l1
+  induction l1 with
+  | nil => intro l2 _ p hp; simp at hp
+  | cons a l1 ih =>
+    intro l2 hnd p hp p' hp' he
+    cases l2 with
+    | nil => simp at hp
+    | cons b l2 =>
+      rw [List.nodup_cons] at hnd
+      simp only [List.zip_cons_cons, List.mem_cons] at hp hp'
+      rcases hp with rfl | hp <;> rcases hp' with rfl | hp'
+      · rfl
+      · simp only at he; exact absurd (by rw [he]; exact (List.of_mem_zip hp').1) hnd.1
+      · simp only at he; exact absurd (by rw [← he]; exact (List.of_mem_zip hp).1) hnd.1
+      · exact ih l2 hnd.2 p hp p' hp' he
+
+/-- the log of a longer history extends the log of a shorter one -/
+theorem ghost_log_mono (w : World) (ops ops2 : List Op) (j : Nat) {e : Ev} (h : e ∈ (ghost w ops j).log) :
+    e ∈ (ghost w (ops ++ ops2) j).log := by
+  revert h
+  refine snoc_induction (P := fun ops2 => e ∈ (ghost w ops j).log → e ∈ (ghost w (ops ++ ops2) j).log)
+    ?_ ?_ ops2
+  · intro h; simpa using h
+  · intro l a ih h
+    rw [← List.append_assoc, ghost_snoc]
+    exact ghostStep_log_mono (ih h)
+
+/-- every event of a history was produced by one of its operations (`ghostStep_mem` at that point) -/
+theorem ghost_mem_origin (w : World) (j : Nat) {e : Ev} : ∀ ops : List Op, e ∈ (ghost w ops j).log →
+    ∃ pre op post, ops = pre ++ op :: post ∧ e ∉ (ghost w pre j).log ∧
+      e ∈ (ghost w (pre ++ [op]) j).log := by
+  refine snoc_induction ?_ ?_
+  · intro h; simp [ghost, replayFrom] at h
+  · intro l a ih h
+    by_cases hl : e ∈ (ghost w l j).log
+    · obtain ⟨pre, op, post, rfl, h1, h2⟩ := ih hl
+      exact ⟨pre, op, post ++ [a], by simp, h1, h2⟩
+    · exact ⟨l, a, [], rfl, hl, h⟩
+
+theorem mem_outIds_of_emitted {log : List Ev} {id fn : Nat} (h : Event.emitted id fn ∈ log) : id ∈ outIds log :=
+  List.mem_filterMap.mpr ⟨_, h, rfl⟩
+theorem mem_outIds_of_stale {log : List Ev} {id fn : Nat} (h : Event.stale id fn ∈ log) : id ∈ outIds log :=
+  List.mem_filterMap.mpr ⟨_, h, rfl⟩
+theorem mem_outIds_of_cleared {log : List Ev} {id : Nat} (h : Event.cleared id ∈ log) : id ∈ outIds log :=
+  List.mem_filterMap.mpr ⟨_, h, rfl⟩
+
+/-- what a tick at clock `fn` does with the queued message `p` (id, msg) -/
+theorem Inv.tick_outcome {pos : Nat} {q : List Trxd.TxMsg} {g : Ghost} (h : Inv pos q [] g) (fn : Nat)
+    {p : Nat × Trxd.TxMsg} (hp : p ∈ g.ids.zip q) :
+    (Event.emitted p.1 fn ∈ g.log ++ tickEvents fn (g.ids.zip q) ↔ classify fn p.2 = .emit) ∧
+    (Event.stale p.1 fn ∈ g.log ++ tickEvents fn (g.ids.zip q) ↔ classify fn p.2 = .stale) ∧
+    (p.1 ∈ tickIds fn (g.ids.zip q) ↔ classify fn p.2 = .wait) := by
+  have hq : p.1 ∈ g.ids ++ ([] : List (Nat × Trxd.TxMsg)).map Prod.fst := by
+    simp only [List.map_nil, List.append_nil]; exact (List.of_mem_zip hp).1
+  have hno := h.spec.queued_no_outcome hq
+  have hnd : g.ids.Nodup := by
+    have := h.spec.queued_nodup
+    simpa only [List.map_nil, List.append_nil] using this
+  have inj := zip_fst_inj g.ids q hnd
+  refine ⟨?_, ?_, ?_⟩
+  · constructor
+    · intro hm
+      rcases List.mem_append.mp hm with hm | hm
+      · exact absurd (mem_outIds_of_emitted hm) hno
+      · rcases mem_tickEvents hm with ⟨p', hp', hc, he⟩ | ⟨p', hp', hc, he⟩
+        · have he := (Event.emitted.inj he).1; rw [inj p hp p' hp' he]; exact hc
+        · cases he
+    · intro hc
+      apply List.mem_append_right
+      simp only [tickEvents, List.mem_append, List.mem_map, List.mem_filter, beq_iff_eq]
+      exact .inl ⟨p, ⟨hp, hc⟩, rfl⟩
+  · constructor
+    · intro hm
+      rcases List.mem_append.mp hm with hm | hm
+      · exact absurd (mem_outIds_of_stale hm) hno
+      · rcases mem_tickEvents hm with ⟨p', hp', hc, he⟩ | ⟨p', hp', hc, he⟩
+        · cases he
+        · have he := (Event.stale.inj he).1; rw [inj p hp p' hp' he]; exact hc
+    · intro hc
+      apply List.mem_append_right
+      simp only [tickEvents, List.mem_append, List.mem_map, List.mem_filter, beq_iff_eq]
+      exact .inr ⟨p, ⟨hp, hc⟩, rfl⟩
+  · simp only [tickIds, List.mem_map, List.mem_filter, beq_iff_eq]
+    constructor
+    · rintro ⟨p', ⟨hp', hc⟩, he⟩
+      rw [inj p hp p' hp' he.symm]; exact hc
+    · intro hc; exact ⟨p, ⟨hp, hc⟩, rfl⟩
+
 end OsmoVerif.World
